@@ -5,17 +5,11 @@
 //!
 //! exit 0 = held on everything explored, 1 = VIOLATION line printed, 2 = inconclusive.
 
+use vp::engine::{self, Run, Tier};
+use vp::props;
+
 #[global_allocator]
 static GLOBAL: engine::CountingAlloc = engine::CountingAlloc;
-
-#[macro_use]
-pub mod engine;
-pub mod generated;
-pub mod props;
-pub mod refs;
-pub mod transport;
-
-use engine::{Run, Tier};
 
 fn main() {
     engine::install_panic_hook();
@@ -23,6 +17,34 @@ fn main() {
     if args.len() < 3 {
         eprintln!("usage: vp <ID> <quick|thorough> | vp <ID> --replay <file>");
         std::process::exit(2);
+    }
+    if args[1] == "fuzz-replay" {
+        // vp fuzz-replay <target> <file>: re-judge a raw libFuzzer input with the property's oracle
+        let (Some(target), Some(path)) = (args.get(2), args.get(3)) else {
+            eprintln!("usage: vp fuzz-replay <target> <file>");
+            std::process::exit(2);
+        };
+        let Ok(data) = std::fs::read(path) else {
+            eprintln!("cannot read {path}");
+            std::process::exit(2);
+        };
+        let id = vp::fuzz_entry::TARGETS.iter().find(|t| t.0 == target.as_str()).map(|t| t.1).unwrap_or("?");
+        match vp::fuzz_entry::run(target, &data) {
+            Ok(()) => {
+                println!("fuzz-replay {target} {path}: property holds on this input");
+                std::process::exit(0);
+            },
+            Err(f) => {
+                let known = engine::load_known(id);
+                if known.iter().any(|k| k.sig == f.sig) {
+                    println!("KNOWN-FINDING: property={id} signature={} {}", f.sig, f.msg);
+                    std::process::exit(0);
+                }
+                println!("fuzz-replay {target}: {}: {}", f.sig, f.msg);
+                println!("VIOLATION property={id} replay={path}");
+                std::process::exit(1);
+            },
+        }
     }
     let id = args[1].to_uppercase();
     let Some(prop) = props::ALL.iter().find(|p| p.id == id) else {
